@@ -40,6 +40,11 @@ def _assign(tis, how):
             t.obj.add_required_resource(sw)
             named[f"sel{i}_W"] = sw._selection_dict[w]
         return w, [(t, w._busy_intervals[t.obj]) for t in tis], named
+    if how == "cumulative":
+        cw = ps.CumulativeWorker(name="CW", size=2)
+        for t in tis:
+            t.obj.add_required_resource(cw)
+        return cw, [(t, u._busy_intervals[t.obj]) for u in cw._cumulative_workers for t in tis], {}
     raise ValueError(how)
 
 
@@ -105,7 +110,25 @@ def count_and_sum_shapes(tier):
                 return [("count_of_reported_assignments", True, v == Sum([b2i(And(bs >= 0, be >= 0)) for _, (bs, be) in ctx.busy]))]
 
             out.append(shape(name, build, defs))
-    # tardiness / earliness / number of tardy / max lateness (due dates >= 0)
+    # a cumulative worker: a task counts once, whatever the number of elementary workers it occupies;
+    # utilisation: only what every reading agrees on (at least the time of its tasks spread over the whole size)
+    for m in masks2:
+        def build(P, m=m):
+            pb, hv = new_problem(P, 12)
+            tis = _tasks(P, ("fixed", "var"), m)
+            res, busy, named = _assign(tis, "cumulative")
+            return Ctx(problem=pb, tis=tis, busy=busy, nb=ps.IndicatorNumberTasksAssigned(resource=res), ut=ps.IndicatorResourceUtilization(resource=res))
+
+        def defs(ctx):
+            total = Sum([z3.If(t.sched, t.e - t.s, 0) for t in ctx.tis])
+            v = ctx.ut._indicator_variable
+            return [("count_of_tasks_assigned", True, ctx.nb._indicator_variable == Sum([b2i(t.sched) for t in ctx.tis])),
+                    ("utilization_at_least_task_time_over_capacity", True, (v + 1) * 2 * 12 > 100 * total),
+                    ("utilization_is_occupied_capacity_within_rounding", True,
+                     And(v * 24 - 100 * Sum([be - bs for _, (bs, be) in ctx.busy]) < 24, 100 * Sum([be - bs for _, (bs, be) in ctx.busy]) - v * 24 < 24)),
+                    ("utilization_between_0_and_100", True, And(v >= 0, v <= 100))]
+
+        out.append(shape(f"cumulative_worker/{_mask_tag(m)}", build, defs))
     for m in [(False, False), (True, False), (True, True)]:
         for explicit_list in (False, True):
             tag = f"{_mask_tag(m)}/{'list' if explicit_list else 'all'}"
